@@ -22,11 +22,17 @@ import Hv.Basic.LTS
 namespace Hv.Life
 
 structure Cfg where
-  /-- Destroy re-checks emptiness after the vigil drain and gives up when a record appeared -/
+  /-- the auto-destroy re-checks emptiness after the vigil drain and closes the swamp instead when a record appeared -/
   destroyRechecks : Bool
   /-- handing out an instance and taking the vigil are one step under the lock that also covers the
       listener's idle decision and the `closing` flip (so the decision sees every touch) -/
   atomicSummon : Bool
+  /-- SummonSwamp waits until a closing instance has left the swamp map (it looks at the map again after
+      `WaitForGracefulClose`); `false`: once the closing instance has flushed, a fresh instance is created and mapped
+      while the old one's close callback — which removes the map entry by name — is still to come -/
+  summonWaitsForUnmap : Bool := true
+  /-- GracefulStop returns (and the process exits) only when no instance is mapped any more -/
+  stopWaitsUntilClosed : Bool := true
   deriving DecidableEq, Repr
 
 structure TSt where
@@ -51,6 +57,8 @@ structure St where
   armed : Bool
   /-- an interaction (summon's IsClosing touch) happened after that reading -/
   touched : Bool
+  /-- the close callback of an instance that is no longer the mapped one is still to come -/
+  unmapPending : Bool := false
 
 inductive Act where
   | summon (t : Nat)
@@ -64,6 +72,10 @@ inductive Act where
   | closeFlush
   | closeDone
   | flushTick
+  /-- the late close callback of a replaced instance: removes whatever is mapped under the name -/
+  | staleUnmap
+  /-- GracefulStop has returned and the process exits: whatever is only in memory is gone -/
+  | exit
   deriving DecidableEq, Repr
 
 def init (file : List Nat) : St :=
@@ -80,7 +92,13 @@ def step (cfg : Cfg) (s : St) : Act → Option St
     if (s.th t).pc != 0 then none else
     let npc := if cfg.atomicSummon then 2 else 1
     if s.live then
-      if s.closing then none      -- waits for the closing instance to go away
+      if s.closing then
+        -- waits for the closing instance to go away; the defective summon only waits for its flush
+        if !cfg.summonWaitsForUnmap && s.stage == 2 then
+          some { s with gen := s.gen + 1, closing := false, stage := 0, destroying := false,
+                        holders := if cfg.atomicSummon then [t] else [], mem := s.file,
+                        th := setT s.th t { pc := npc, gen := s.gen + 1 }, touched := true, unmapPending := true }
+        else none
       else some { s with th := setT s.th t { pc := npc, gen := s.gen }, touched := true,
                          holders := if cfg.atomicSummon then s.holders ++ [t] else s.holders }
     else
@@ -115,7 +133,8 @@ def step (cfg : Cfg) (s : St) : Act → Option St
     if (s.th t).pc != 4 then none else
     if !s.holders.isEmpty then none      -- WaitForActiveVigilsClosed
     else if cfg.destroyRechecks && !s.mem.isEmpty then
-      some { s with closing := false, destroying := false, th := setT s.th t { s.th t with pc := 3 } }
+      -- not empty any more: close (flush + unmap) instead of deleting; `closing` stays set
+      some { s with stage := 1, destroying := false, th := setT s.th t { s.th t with pc := 3 } }
     else
       some { s with file := [], live := false, th := setT s.th t { s.th t with pc := 3 } }
   | .tickRead => some { s with armed := true, touched := false }
@@ -130,6 +149,10 @@ def step (cfg : Cfg) (s : St) : Act → Option St
     if s.live && s.stage == 2 then some { s with live := false } else none
   | .flushTick =>
     if s.live && !s.closing && s.stage == 0 then some { s with file := s.mem } else none
+  | .staleUnmap =>
+    if s.live && s.unmapPending then some { s with live := false, unmapPending := false } else none
+  | .exit =>
+    if cfg.stopWaitsUntilClosed && s.live then none else some { s with live := false }
 
 abbrev run (cfg : Cfg) := LTS.run (step cfg)
 
